@@ -64,6 +64,9 @@ def parseScalar (s : String) : Option Scalar :=
       else if k == "n" || k == "k" then v.toNat?.map .num
       else if k == "m" then v.toNat?.map .neg
       else if k == "f" then some (.float v)
+      -- `sizeof(<template><uint>(1u))`: value 4; the instantiation it leaves in the module is `instancesOf`
+      else if k == "z" then some (.sizeofInst v)
+      else if k == "v" then some .nonConst
       else if k == "b" then some (.bool (v == "1"))
       else none
     | [] => none
@@ -87,11 +90,17 @@ def parseProp (s : String) : Option (String × Val) :=
   | some (n, v) => (parseVal v).map (n, ·)
   | none => none
 
-def parseThreads (s : String) : Option (Option (Nat × Nat × Nat)) :=
-  if s == "-" then some none
+/-- `(threads, badThreads)`: a component `x<k>` is an argument the constant evaluator can not turn into a u32
+    (k = 1 `-1`, 2 `4294967296`, 3 `1.5`, 4 a member of a groupshared variable) -/
+def parseThreads (s : String) : Option (Option (Nat × Nat × Nat) × Bool) :=
+  if s == "-" then some (none, false)
   else
-    match (s.splitOn ",").map (fun x => (if x.startsWith "c" then (x.drop 1).toString else x).toNat?) with
-    | [some x, some y, some z] => some (some (x, y, z))
+    let comps := s.splitOn ","
+    if comps.length == 3 && comps.any (fun x => x.startsWith "x") then
+      if comps.all (fun x => ((x.drop 1).toString.toNat?).isSome || x.toNat?.isSome) then some (none, true) else none
+    else
+    match comps.map (fun x => (if x.startsWith "c" then (x.drop 1).toString else x).toNat?) with
+    | [some x, some y, some z] => some (some (x, y, z), false)
     | _ => none
 
 def hasFlag (flags : String) (c : Char) : Bool := flags.toList.contains c
@@ -113,7 +122,7 @@ def parseItem (on : Bool) (s : String) : Option (List Item) :=
       (parseThreads th).map fun t =>
         [.func { name := name,
                  shape := shape ++ (if hasFlag flags 'M' then "M" else "") ++ (if hasFlag flags 'N' then "N" else ""),
-                 isTemplate := hasFlag flags 'T', hasBody := !hasFlag flags 'd', threads := t }]
+                 isTemplate := hasFlag flags 'T', hasBody := !hasFlag flags 'd', threads := t.1, badThreads := t.2 }]
   | "P" :: name :: flags :: props =>
     if !activeFlags on flags then some []
     else (sequenceOpt (props.map parseProp)).map fun ps => [.pipe { name := name, props := ps }]
@@ -191,6 +200,7 @@ def kindName : ErrKind → String
   | .requiresGraphics => "RequiresGraphics" | .requiresString => "RequiresString"
   | .requiresInteger => "RequiresInteger" | .argumentUnknown => "ArgumentUnknown"
   | .stringNotUsable => "StringNotUsable" | .unsupported => "Unsupported"
+  | .threadsNotInteger => "ThreadsNotInteger"
 
 def showTyper : Except (String × Err) TState → String
   | .ok s => "ok:" ++ String.join (s.pipes.map showIrPipe)
@@ -198,6 +208,7 @@ def showTyper : Except (String × Err) TState → String
     match e.kind with
     | .unsupported => "unsupported"
     | .stringNotUsable => "err:other:error: string may not be used"
+    | .threadsNotInteger => "err:other:error: state requires an integer argument"
     | k => "err:" ++ kindName k ++ "@" ++ n ++ "." ++ toString e.path
 
 /-- the symbols of a wide program that are not functions, in the order `NameMap::build` pushes them
